@@ -108,9 +108,14 @@ def run(prog, rep):
         srcs = [("param", x) for x in pn[1:]]
 
         def rooted(t):
-            t = terms.strip_iter_adapters(t) if t is not None else None
-            while isinstance(t, tuple) and t and t[0] == "call" and len(t[2]) == 1 and t[1].rsplit("::", 1)[-1] in ("iter", "into_iter", "clone", "keys", "values"):
-                t = t[2][0]
+            for _ in range(8):
+                t = terms.strip_iter_adapters(t) if t is not None else None
+                if isinstance(t, tuple) and t and t[0] == "call" and len(t[2]) == 1 and t[1].rsplit("::", 1)[-1] in ("iter", "into_iter", "clone", "keys", "values"):
+                    t = t[2][0]
+                elif isinstance(t, tuple) and t and t[0] == "hof" and t[1] in ("map", "filter", "inspect", "filter_map"):
+                    t = t[2]          # one item per element of the underlying map
+                else:
+                    break
             return t in srcs
         outside = []
         out = s.mut_out.get(pn[0])
